@@ -2,7 +2,7 @@ from .walk import WalkState
 from ...abbreviation import AbbreviationNode, AbbreviationAttribute
 from ...abbreviation.tokenizer.tokens import Field
 from ...config import Config
-from ...output_stream import OutputStream, is_inline
+from ...output_stream import OutputStream, is_inline, re_line_break
 
 caret = [Field('', 0)]
 "Default caret token"
@@ -44,7 +44,10 @@ def split_by_lines(tokens: list):
 
     for t in tokens:
         if isinstance(t, str):
-            lines = t.splitlines()
+            lines = re_line_break.split(t)
+            if lines[-1] == '':
+                # A trailing line break does not start another line
+                lines.pop()
             line.append(lines.pop(0) if lines else '')
             while lines:
                 result.append(line)
